@@ -1,7 +1,7 @@
 (* C17/Props.v — property-level theorems only (statements + `exact`), each followed by Print Assumptions.
    Tags [FULL]/[PARTIAL]/[REFUTED] are read by bin/check. *)
 From Coq Require Import List NArith Permutation.
-From BLB Require Import Lib.Shuffle C17.Model C17.Proofs.
+From BLB Require Import Lib.Shuffle C17.Model C17.Proofs C17.Index C17.Spread C17.Top.
 Import ListNotations.
 
 (* [FULL] for every reverse index whose levels partition the candidate set, every existing/down set, every
@@ -25,3 +25,49 @@ Theorem alloc_all_or_nothing :
     exists R, allocate idx num existing down o perms = Some R /\ length R = num.
 Proof. exact alloc_all_or_nothing_lemma. Qed.
 Print Assumptions alloc_all_or_nothing.
+
+(* [FULL] buildReverseIndex: for failure-domain chains of equal non-zero length with distinct hosts, every level
+   of the reverse index partitions exactly the hosts (so alloc_sound applies to what the monitor builds) *)
+Theorem build_index_wf :
+  forall cs n, chains_ok cs n -> cs <> [] -> Forall (level_ok (map (hd 0%N) cs)) (build_index cs).
+Proof. exact build_index_ok_lemma. Qed.
+Print Assumptions build_index_wf.
+
+(* [FULL] the whole path monitor data -> reverse index -> allocation, judged by the decidable specification
+   alloc_verdict that the harness applies to the real allocateTS: for every uniform topology, every candidate
+   order (map iteration), every existing set made of candidates, every down set, count, random draws and level
+   orders, a returned allocation satisfies every clause, including the per-level spread clause on nested
+   forests (pairwise distinct holder-free domains, or every eligible domain of the level served) *)
+Theorem alloc_meets_spec :
+  forall topo cands cands' ex0 down num o perms R,
+    topo_uniform topo = true -> (forall h, In h cands -> In h (map (hd 0%N) topo)) -> NoDup cands ->
+    Permutation cands' cands ->
+    all_existing_visible cands ex0 = true ->
+    allocate (build_index (map (chain_of topo) cands')) num ex0 down o perms = Some R ->
+    alloc_verdict topo cands ex0 down num false (Some R) = V_OK.
+Proof. exact verdict_some_ok. Qed.
+Print Assumptions alloc_meets_spec.
+
+(* [FULL] without the hypothesis that existing holders are candidates, the only clause that can fail is the
+   spread clause, and the specification reports it under its own code *)
+Theorem alloc_meets_spec_any_existing :
+  forall topo cands cands' ex0 down num o perms R,
+    topo_uniform topo = true -> (forall h, In h cands -> In h (map (hd 0%N) topo)) -> NoDup cands ->
+    Permutation cands' cands ->
+    allocate (build_index (map (chain_of topo) cands')) num ex0 down o perms = Some R ->
+    alloc_verdict topo cands ex0 down num false (Some R) = V_OK \/
+    (alloc_verdict topo cands ex0 down num false (Some R) = V_SPREAD_HIDDEN_EXISTING /\
+     all_existing_visible cands ex0 = false).
+Proof. exact verdict_some_any. Qed.
+Print Assumptions alloc_meets_spec_any_existing.
+
+(* [REFUTED] spread over failure domains fails when an existing holder is healthy-but-full, hence absent from the
+   reverse index: concrete monitor state, topology and draws for which the allocation lands in the holder's rack
+   although another rack has room; replayed on the real code by the harness as verdict 7 *)
+Theorem alloc_spread_hidden_existing_refuted :
+  exists topo cfg tss num existing down o perms R,
+    topo_uniform topo = true /\ topo_nested topo = true /\
+    allocate_from_monitor cfg tss topo [] num existing down o perms = Some R /\
+    alloc_verdict topo (candidates cfg tss) existing down num false (Some R) = V_SPREAD_HIDDEN_EXISTING.
+Proof. exact hidden_existing_witness. Qed.
+Print Assumptions alloc_spread_hidden_existing_refuted.
